@@ -182,8 +182,9 @@ where
                             .join()
                             .unwrap_or_else(|_| Err(io::Error::from(io::ErrorKind::BrokenPipe)));
 
+                        // (the stream closes its descriptor when it is dropped: closing it here as
+                        // well closed it twice)
                         let _ = service_stream.shutdown();
-                        unsafe { libc::close(service_stream.as_raw_fd()) };
                         r1?;
 
                         let _ = rx_end.recv()?;
@@ -199,8 +200,9 @@ where
                             .join()
                             .unwrap_or_else(|_| Err(io::Error::from(io::ErrorKind::BrokenPipe)));
 
+                        // (the stream closes its descriptor when it is dropped: closing it here as
+                        // well closed it twice)
                         let _ = service_stream.shutdown();
-                        unsafe { libc::close(service_stream.as_raw_fd()) };
                         r2?;
 
                         let _ = rx_end.recv()?;
